@@ -654,3 +654,189 @@ def extra_coverage(cases, impl, model):
                 h["error-without-span"] += 1
         sizes[min(len(c.args[0]) // 50 * 50, 500)] += 1
     return {"verdict_split": dict(h), "input_size_histogram": {str(k): v for k, v in sorted(sizes.items())}}
+
+
+# =============================================================================================
+# serde half, tie to the located-error model (coq/Model/DeLoc.v, driver `deloc`) — added as one
+# separate block; nothing above is changed, the functions below wrap the ones above.
+#
+#   * every `deerr` case is also answered by driver/driver_deloc (coq/Extract/Cmd_deloc.v):
+#       wt=<ok | a-b | none> nt=<ok | key path as hex | none> kind=.. at=<ghost path>
+#     wt = the span of the error with source text, nt = the key path without.  `compare` demands
+#     wt = the span on the three routes that have the text, nt = the key path of from_docmut
+#     (toml_edit's deserializer without spans) and, when they report an error, of the two
+#     toml::Value routes.  `-` = not modelled (floats in the document, unknown tag).
+#   * additional cases for target types the located model covers beyond `mod ty` (enum payloads of
+#     every kind, tuple variants written as tables, nested sequences, maps with enum keys / struct
+#     values, Date / Time): tags vdate sdate odate enum3 ttime vecvec mapenum mapinner, answered by
+#     the block `mod extra` at the end of harness/src/bin/c15.rs under the same command.
+#   * new known class (reported, to be registered by the coordinator):
+#       C15-de-datekind-span-outer   a Date / Time fed another kind of date-time inside an array or as
+#         a newtype variant's payload: the error carries the span of the enclosing array / enum table,
+#         not of the offending value (Date::deserialize raises the mismatch after the element's
+#         deserializer returned; ArraySeqAccess::next_element_seed and
+#         TableEnumDeserializer::newtype_variant_seed attach no span).  Classifier: the model says
+#         kind=datetime-kind and every span the routes with text report is the model's.
+# =============================================================================================
+import common as _common
+
+DELOC_DRIVER = "deloc"
+_deloc_cache = {}
+_deloc_all = []
+_deloc_state = {"built": None}
+
+
+def gen_deerr_extra(rng, tier):
+    out = []
+
+    def add(tag, text, lookup, keys, kind, keys_alt=None):
+        meta = {"kind": "de2-" + kind, "keys": keys}
+        if keys_alt is not None:
+            meta["keys_alt"] = keys_alt
+        out.append(Case("deerr", [tag.encode(), text.encode(), lookup.encode()], meta))
+
+    mb = rng.choice(MB).decode()
+    add("vdate", "v = [1979-05-27, 1979-05-27T07:32:00Z]\n", "v/#1", "v", "datekind")
+    add("vdate", "# %s\nv = [\n  07:32:00, # c\n]\n" % mb, "v/#0", "v", "datekind")
+    add("vdate", "v = [1979-05-27, 1]\n", "v/#1", "v", "vec")
+    add("sdate", "d = 1979-05-27T07:32:00Z\n", "d", "d", "datekind-field")
+    add("sdate", "d = 1\n", "d", "d", "dt")
+    add("odate", "d = 07:32:00\n", "d", "d", "datekind-field")
+    add("ttime", "p = [1, 1979-05-27]\n", "p/#1", "p", "datekind")
+    add("ttime", "p = [1]\n", "p", "p", "tuple-short")
+    add("enum3", "e = { N = 07:32:00 }\n", "e/N", "e.N", "datekind", keys_alt="e")
+    add("enum3", "e = { N = 1 }\n", "e/N", "e.N", "variant", keys_alt="e")
+    add("enum3", "[e]\nN = '%s'\n" % mb, "e/N", "e.N", "variant", keys_alt="e")
+    add("enum3", "e = { T = [1, 'x'] }\n", "e/T/#1", "e.T", "variant", keys_alt="e")
+    add("enum3", "e = { T = [1] }\n", "e/T", "e.T", "variant", keys_alt="e")
+    add("enum3", "e = { T = { 0 = 1, 1 = 'x' } }\n", "e/T/1", "e.T.1", "variant", keys_alt="e")
+    add("enum3", "e = { T = { 0 = 1, 2 = 2 } }\n", "e/T/2/@", "e.T", "variant", keys_alt="e")
+    add("enum3", "e = { S = { x = 'y' } }\n", "e/S/x", "e.S.x", "variant", keys_alt="e.x")
+    add("enum3", "[e.S]\nx = true # %s\n" % mb, "e/S/x", "e.S.x", "variant", keys_alt="e.x")
+    add("enum3", "e = { S = { } }\n", "e/S", "e.S", "variant", keys_alt="e")
+    add("enum3", "e = { U = 1 }\n", "e/U", "e.U", "variant", keys_alt="e")
+    add("enum3", "e = { U = [1] }\n", "e/U", "e.U", "variant", keys_alt="e")
+    add("enum3", "e = { Q = 1 }\n", "e/Q/@", "e", "variant-key")
+    add("enum3", "e = { }\n", "e", "e", "enum-shape")
+    add("enum3", "e = { N = 1, T = 2 }\n", "e", "e", "enum-shape")
+    add("enum3", "e = 1\n", "e", "e", "enum-shape")
+    add("enum3", "e = 'Q'\n", "e", "e", "enum-shape")
+    add("enum3", "e = 'N'\n", "e", "e", "enum-shape")
+    add("vecvec", "v = [[1], [2, 'x']]\n", "v/#1/#1", "v", "nested-seq")
+    add("vecvec", "v = [[1], 2]\n", "v/#1", "v", "nested-seq")
+    add("mapenum", "m = { A = 1, C = 2 }\n", "m/C/@", "m", "map-key")
+    add("mapenum", "m = { A = 1, B = 'x' }\n", "m/B", "m.B", "map")
+    add("mapenum", "[m]\nA = 1\nB = true\n", "m/B", "m.B", "map")
+    add("mapinner", "[m.k]\nb = 1\n", "m/k", "m.k", "map-missing")
+    add("mapinner", "[m.k]\nb = 'x'\nc = 'y'\n", "m/k/b", "m.k.b", "map-nested")
+    add("mapinner", "m = { k = { b = 1, c = 2 } }\n", "m/k/c", "m.k.c", "map-nested")
+    add("mapinner", "m = { k = 1 }\n", "m/k", "m.k", "map-nested")
+    return out
+
+
+_gen_cases_before_deloc = gen_cases
+
+
+def gen_cases(rng, tier):
+    out = _gen_cases_before_deloc(rng, tier) + gen_deerr_extra(rng, tier)
+    del _deloc_all[:]
+    _deloc_all.extend(c.line() for c in out if c.cmd == "deerr")
+    return out
+
+
+def _deloc_line(case):
+    line = case.line()
+    if line not in _deloc_cache:
+        if _deloc_state["built"] is None:
+            with _common.build_lock():
+                _deloc_state["built"] = _common.build_driver(DELOC_DRIVER).ok
+        todo = [l for l in dict.fromkeys(_deloc_all + [line]) if l not in _deloc_cache]
+        if _deloc_state["built"]:
+            for l, r in zip(todo, _common.run_lines(_common.driver_bin(DELOC_DRIVER), todo)):
+                _deloc_cache[l] = r
+        else:
+            for l in todo:
+                _deloc_cache[l] = "BUILD-FAILED"
+    return _deloc_cache[line]
+
+
+def deloc_fields(ml):
+    return dict(x.split("=", 1) for x in ml.split(" ")) if ml.startswith("wt=") else None
+
+
+def deloc_compare(case, il):
+    ml = _deloc_line(case)
+    if ml == "BUILD-FAILED":
+        return "the located-error model (driver deloc) did not build"
+    m = deloc_fields(ml)
+    if m is None or il in ("parse-error", "unknown-type", "bad-args", "notutf8"):
+        return None                   # not modelled
+    f = dict(ROUTE.findall(il))
+    for r in WITH_TEXT:
+        v = f.get(r)
+        got = "ok" if v == "ok" else route_fields(v).get("span")
+        if got != m["wt"]:
+            return "located model and implementation differ: %s reports span %s, the model %s" % (r, got, m["wt"])
+    for r in WITHOUT_TEXT:
+        v = f.get(r)
+        if v == "ok":
+            if r == "from_docmut" and m["nt"] != "ok":
+                return "located model and implementation differ: from_docmut accepts, the model does not"
+            continue                  # toml::Value's own deserializer (no key validation, ..): not this model
+        rf = route_fields(v)
+        got = rf.get("keys") if rf.get("span") == "none" else "span"
+        if got != m["nt"]:
+            return "located model and implementation differ: %s reports key path %s, the model %s" % (r, got, m["nt"])
+    return None
+
+
+_compare_before_deloc = compare
+
+
+def compare(case, ml, il):
+    if case.cmd == "deerr":
+        return deloc_compare(case, il)
+    return _compare_before_deloc(case, ml, il)
+
+
+_known_class_before_deloc = known_class
+
+
+def known_class(case, line):
+    k = _known_class_before_deloc(case, line)
+    if k is not None or case.cmd != "deerr":
+        return k
+    m = deloc_fields(_deloc_line(case))
+    if not m or m.get("kind") != "datetime-kind":
+        return None
+    # every complaint must be "span X, offending value is at Y" with X the span the model predicts
+    # (plus, below an enum variant, the key path of the other known class)
+    f = dict(ROUTE.findall(line))
+    for r in WITH_TEXT:
+        v = f.get(r)
+        if v in (None, "ok") or route_fields(v).get("span") != m["wt"]:
+            return None
+    alt = case.meta.get("keys_alt")
+    keys = alt if alt is not None else case.meta.get("keys", "")
+    for r in WITHOUT_TEXT:
+        v = f.get(r)
+        if v in (None, "ok"):
+            return None
+        rf = route_fields(v)
+        got = rf.get("keys")
+        got = b"" if got in (None, "none") else bytes.fromhex(got)
+        if rf.get("span") != "none" or got.decode("utf-8", "replace") != keys:
+            return None
+    return "C15-de-datekind-span-outer"
+
+# the theorems of the located-error model are checked with the property (runner: COQ_PROPS_EXTRA)
+COQ_PROPS_EXTRA = list(globals().get("COQ_PROPS_EXTRA", [])) + ["Props/C15serde.v"]
+THEOREMS = list(globals().get("THEOREMS", [])) + [
+    "C15_de_located: forall c t s e, opt_overwrite c = false -> all_spans s -> de_loc c t s = LErr e -> kind not in {date-kind, unmodelled} -> "
+    "the error's span = the span of the node (or key) the error was raised at (ghost path e_at), through any nesting",
+    "C15_de_keypath / _ideal / _any: without spans the error has no span and its key path = the keys of the struct fields and map entries on the "
+    "ghost path; = the full path to the offending node unless it lies below an enum variant",
+    "C15_de_keypath_refuted: e = { N = \"x\" } -> key path `e`, offending node e.N (known finding C15-de-keypath-omits-enum-variant)",
+    "C15_de_date_kind_refuted: v = [1979-05-27, 1979-05-27T07:32:00Z] as Vec<Date> -> span of the whole array (class C15-de-datekind-span-outer)",
+    "C15_de_refines: erasing locations, de_loc succeeds exactly when Model/De.v de_value does, with the same value",
+]
